@@ -352,7 +352,29 @@ func (h *Hist) judgeC02(op *Op, pre *ref.Model, res *OpResult) {
 				return
 			}
 		}
-		h.cov.Distinct("c02", fmt.Sprintf("publish n=%d lay=%s", minInt(int(n), 3), layoutOf(h.dir).Pred()))
+		// what preceded this publish: the last mutating op and whether the log was reopened since
+		prev, reopened := "start", false
+		for i := len(h.ops) - 2; i >= 0; i-- {
+			k := h.ops[i].Kind
+			if k == "reopen" || k == "rosession" {
+				reopened = true
+				continue
+			}
+			if k == "delete" || k == "trim" || k == "compact" || k == "publish" {
+				prev = k
+				if k == "delete" {
+					prev += ":" + h.ops[i].Note
+				}
+				break
+			}
+		}
+		empty := "live"
+		if len(pre.Live) == 0 && pre.Next > 0 {
+			empty = "all-deleted"
+		} else if pre.Next == 0 {
+			empty = "new"
+		}
+		h.cov.Distinct("c02", fmt.Sprintf("publish n=%d lay=%s after=%s reopened=%v log=%s", minInt(int(n), 2), layoutOf(h.dir).Pred(), prev, reopened, empty))
 	case "sync":
 		if res.Err == nil && res.Next != pre.Next {
 			h.fail(failf("sync:next", "Sync returned %d, NextOffset is %d", res.Next, pre.Next))
